@@ -1,8 +1,15 @@
 #!/bin/sh
-# Builds the symbolic executor from files on disk only (offline).
+# Builds the symbolic executor from files on disk only (offline). The engine's two dependencies
+# (golang.org/x/tools v0.50.0 and what it needs) are vendored under engine/vendor, so the build does
+# not depend on the state of the Go module cache; if the vendored build fails, the module cache is tried.
 set -e
 cd "$(dirname "$0")"
 mkdir -p bin tmp evidence replays
 cd engine
-GOFLAGS=-mod=mod GOPROXY=off GOSUMDB=off GOTOOLCHAIN=local /opt/veriftools/go1.26.8/bin/go build -o ../bin/gosym ./cmd/gosym
-echo "built bin/gosym"
+GO=/opt/veriftools/go1.26.8/bin/go
+if GOFLAGS=-mod=vendor GOPROXY=off GOSUMDB=off GOTOOLCHAIN=local $GO build -o ../bin/gosym ./cmd/gosym; then
+  echo "built bin/gosym (vendored dependencies)"
+else
+  GOFLAGS=-mod=mod GOPROXY=off GOSUMDB=off GOTOOLCHAIN=local $GO build -o ../bin/gosym ./cmd/gosym
+  echo "built bin/gosym (module cache)"
+fi
